@@ -7,7 +7,7 @@ the idiom `try: labelfmt.format(...) except IndexError: raise ValueError`, whose
 (`labelfmt_format : Except Err Unit`).
 ABSTRACTS declares the observers of interface objects (formula, graph): name -> ([param types], result, may raise).
 """
-from py2lean_types import (INT, BOOL, STR, RANGE, ERASED, NONE, TList, TOpt, TTuple, TObj, TAbs, THet)
+from py2lean_types import (INT, BOOL, STR, RANGE, ERASED, NONE, TList, TOpt, TTuple, TObj, TAbs, THet, TEffect, TEffectClass)
 
 VARS = "cnfgen/formula/variables.py"
 
@@ -26,6 +26,25 @@ ABSTRACTS["AbsBipGraph"] = {
     "left_neighbors": ([INT], TList(INT), True),
     "has_edge": ([INT, INT], BOOL, False),
     "edges": ([], TList(TTuple([INT, INT])), False),
+    "is_bipartite": ([], BOOL, False),
+}
+ABSTRACTS["AbsDiGraph"] = {
+    "is_dag": ([], BOOL, False),
+    "number_of_vertices": ([], INT, False),
+    "vertices": ([], RANGE, False),
+    "predecessors": ([INT], TList(INT), True),
+    "successors": ([INT], TList(INT), True),
+    "in_degree": ([INT], INT, True),
+    "out_degree": ([INT], INT, True),
+}
+ABSTRACTS["AbsGraph"] = {
+    "number_of_vertices": ([], INT, False),
+    "number_of_edges": ([], INT, False),
+    "vertices": ([], RANGE, False),
+    "neighbors": ([INT], TList(INT), True),
+    "degree": ([INT], INT, True),
+    "has_edge": ([INT, INT], BOOL, False),
+    "edges": ([], TList(TTuple([INT, INT])), False),
 }
 ABS_ISINSTANCE = {"AbsBipGraph": ("BaseBipartiteGraph",)}
 # driver side: Lean parser (type `P <interface>`) per abstract interface; python encoders are in py2lean_selftest.py
@@ -33,12 +52,16 @@ ABS_PARSERS = {
     "AbsFormula": "(do let n ← int; pure (AbsFormula.mk n))",
     # a bipartite graph literal `l r m u₁ v₁ …` built by the model's own add_edge; a literal the model refuses is a bad request
     "AbsBipGraph": "(do let g ← bipG; match g with | .ok g => pure (Cnfgen.Vars.absBip g) | .error _ => failure)",
+    "AbsDiGraph": "(do let g ← diG; match g with | .ok g => pure (Cnfgen.Vars.absDi g) | .error _ => failure)",
+    "AbsGraph": "(do let g ← simpleG; match g with | .ok g => pure (Cnfgen.Vars.absGraph g) | .error _ => failure)",
 }
 DRIVER_IMPORTS = ["CnfgenModel.Vars.GenGlue"]
 # abstract calls of effect objects, as the driver instantiates them for the self-test (the theorems quantify over them)
 DRIVER_CALLS = {
     # BaseCNF._check_and_update on a list of integers: ValueError iff it contains 0
     ("CNFLinear", "self_check_and_update"): "(fun ls => if ls.contains 0 then Except.error Err.valueError else Except.ok ())",
+    # int(sqrt(a)): the exact integer square root (CPython's float computation agrees as long as a < 2^52)
+    (None, "float_isqrt"): "Py.isqrt",
 }
 
 # objects that the translated code only constructs and sends commands to: (constructor arguments, log of commands)
@@ -56,6 +79,45 @@ BUILDERS = {
 BUILDERS["CNFLinear"] = {"ctor": [], "command": "add_clause", "args": [TList(INT)], "keywords": {"check": False},
                          "calls": {"_check_and_update": ([TList(INT)], NONE, True)}}
 
+# ---- the formula under construction (families): an effect object; its primitives are hand-written in
+# lean/CnfgenModel/Core/PyFormula.lean (the BaseCNF / CNFLinear / OPB methods at the level of abstract constraints)
+def _lits_check(name):
+    return {"lean": "PyF." + name, "params": [("lits", TList(INT)), ("check", BOOL, True)], "ret": None, "raises": True}
+
+
+EFFECTS = {
+    "Formula": {
+        "lean": "PyF.FState", "new": "PyF.empty",
+        "views": {"AbsFormula": "(AbsFormula.mk ({c}).numvar)"},
+        "methods": {
+            "number_of_variables": {"lean": "PyF.number_of_variables", "params": [], "ret": INT, "raises": False},
+            "update_variable_number": {"lean": "PyF.update_variable_number", "params": [("new_value", INT)], "ret": None, "raises": True},
+            "add_clause": {"lean": "PyF.add_clause", "nested_valueerror": True, "params": [("clause", TList(INT)), ("check", BOOL, True)], "ret": None, "raises": True},
+            "add_linear": {"lean": "PyF.add_linear", "nested_valueerror": True, "params": [("lits", TList(INT)), ("op", STR), ("constant", INT), ("check", BOOL, True)], "ret": None, "raises": True},
+            "cardinality_eq": {"lean": "PyF.cardinality_eq", "nested_valueerror": True, "params": [("lits", TList(INT)), ("value", INT), ("check", BOOL, True)], "ret": None, "raises": True},
+            "cardinality_leq": {"lean": "PyF.cardinality_leq", "nested_valueerror": True, "params": [("lits", TList(INT)), ("value", INT), ("check", BOOL, True)], "ret": None, "raises": True},
+            "cardinality_geq": {"lean": "PyF.cardinality_geq", "nested_valueerror": True, "params": [("lits", TList(INT)), ("value", INT), ("check", BOOL, True)], "ret": None, "raises": True},
+            "cardinality_neq": {"lean": "PyF.cardinality_neq", "nested_valueerror": True, "params": [("lits", TList(INT)), ("value", INT), ("check", BOOL, True)], "ret": None, "raises": True},
+            "add_parity": {"lean": "PyF.add_parity", "nested_valueerror": True, "params": [("lits", TList(INT)), ("constant", INT), ("check", BOOL, True)], "ret": None, "raises": True},
+            "add_loose_majority": _lits_check("add_loose_majority"),
+            "add_loose_minority": _lits_check("add_loose_minority"),
+            "add_strict_majority": _lits_check("add_strict_majority"),
+            "add_strict_minority": _lits_check("add_strict_minority"),
+        },
+    },
+}
+FORMULA = TEffect("Formula", "PyF.FState")
+
+# constructors of interface objects: hand-written glue (lean/CnfgenModel/Vars/GenGlue.lean)
+# class methods that return their (graph) argument unchanged on the typed domain: the argument already is a cnfgen
+# graph object (the conversion of networkx graphs is outside the translation)
+IDENTITY_CALLS = ["BipartiteGraph.normalize", "Graph.normalize", "DirectedGraph.normalize"]
+
+ABS_CONSTRUCTORS = {
+    "CompleteBipartiteGraph": ("Cnfgen.Vars.absCompleteBip", [INT, INT], TAbs("AbsBipGraph"), True),
+    "Graph.complete_graph": ("Cnfgen.Vars.absCompleteGraph", [INT], TAbs("AbsGraph"), True),
+}
+
 ITEMS = [
     {"file": VARS, "class": "BlockOfVariables", "property": "C11",
      "methods": {
@@ -66,6 +128,7 @@ ITEMS = [
          "to_index": {"params": {"lit": INT}},
          "indices": {"params": {"pattern": TList(TOpt(INT))}, "vararg": "pattern"},
          "__call__": {"params": {"index": TList(TOpt(INT))}, "vararg": "index"},
+         "__getitem__": {"params": {"choices": INT}, "lean": "getitem"},
      }},
     {"file": VARS, "class": "BinaryMappingVariables", "property": "C11",
      "methods": {
@@ -80,6 +143,7 @@ ITEMS = [
          "to_index": {"params": {"lit": INT}},
          "__call__": {"params": {"index": TList(TOpt(INT))}, "vararg": "index"},
          "forbid": {"params": {"i": INT, "j": INT}},
+         "__getitem__": {"params": {"choices": INT}, "lean": "getitem"},
      }},
     {"file": VARS, "class": "BipartiteEdgesVariables", "property": "C11",
      "methods": {
@@ -102,6 +166,7 @@ ITEMS = [
          "_unsafe_index_to_lit": {"params": {"index": TList(INT)}, "lean": "index_to_lit"},
          "__call__": {"params": {"index": TList(TOpt(INT))}, "vararg": "index"},
          "to_index": {"params": {"lit": INT}},
+         "__getitem__": {"params": {"choices": INT}, "lean": "getitem"},
      }},
     {"file": VARS, "class": "SingletonVariableGroup", "property": "C11",
      "methods": {
@@ -144,6 +209,7 @@ ITEMS = [
          "_unsafe_index_to_lit": {"params": {"index": TList(TOpt(INT))}, "lean": "index_to_lit"},
          "__call__": {"params": {"pattern": TList(TOpt(INT))}, "vararg": "pattern"},
          "to_index": {"params": {"lit": INT}},
+         "__getitem__": {"params": {"choices": INT}, "lean": "getitem"},
      }},
     # ---- C15: closed-form DAG constructions: (number of vertices, the add_edge calls in order)
     {"file": "cnfgen/graphs.py", "function": "dag_path", "property": "C15", "params": {"length": INT}},
@@ -154,4 +220,63 @@ ITEMS = [
     # ---- C04: the operator reduction of add_linear (a recursive procedure emitting clauses)
     {"file": "cnfgen/formula/linear.py", "class": "CNFLinear", "property": "C04", "self_builder": True,
      "methods": {"add_linear": {"params": {"lits": TList(INT), "op": STR, "constant": INT, "check": BOOL}}}},
+    # ================= families: the generator is a procedure on the formula (EFFECTS) =================
+    {"file": "cnfgen/localtypes.py", "function": "non_negative_int", "property": "C01",
+     "params": {"value": INT, "name": STR}},
+    {"file": "cnfgen/localtypes.py", "function": "positive_int", "property": "C01",
+     "params": {"value": INT, "name": STR}},
+    {"file": "cnfgen/localtypes.py", "function": "positive_int_seq", "property": "C03",
+     "params": {"value": TList(INT), "name": STR}},
+    # VariablesManager: group creation and the force_*_mapping builders, one typed variant per group class.
+    # `f.parent_formula() != F` is assumed false (the families pass the groups they created on this formula).
+    {"file": VARS, "class": "VariablesManager", "property": "C01", "self_effect": "Formula", "self_alias": ["_formula"],
+     "erased_attrs": ["_groups"], "assume_false": ["f.parent_formula() != F"],
+     "methods": {
+         "_add_variable_group": [
+             {"lean": "add_variable_group_unary", "params": {"vg": TObj("UnaryMappingVariables")}},
+             {"lean": "add_variable_group_binary", "params": {"vg": TObj("BinaryMappingVariables")}},
+             {"lean": "add_variable_group_block", "params": {"vg": TObj("BlockOfVariables")}},
+             {"lean": "add_variable_group_word", "params": {"vg": TObj("WordOfIndicesVariables")}},
+         ],
+         "new_combinations": {"params": {"n": INT, "k": INT, "label": ERASED}},
+         "new_combinations_with_replacement": {"params": {"n": INT, "k": INT, "label": ERASED}},
+         "new_permutations": {"params": {"n": INT, "k": TOpt(INT), "label": ERASED}},
+         "new_words": {"params": {"n": INT, "k": INT, "label": ERASED}},
+         "new_block": {"params": {"ranges": TList(INT), "label": ERASED}, "vararg": "ranges"},
+         "new_binary_mapping": {"params": {"n": INT, "m": INT, "label": ERASED}},
+         "new_mapping": {"params": {"n": INT, "m": INT, "label": ERASED}},
+         "new_sparse_mapping": {"params": {"B": TAbs("AbsBipGraph"), "label": ERASED}},
+         "force_complete_mapping": [{"lean": "force_complete_mapping_unary", "params": {"f": TObj("UnaryMappingVariables")}},
+                                    {"lean": "force_complete_mapping_binary", "params": {"f": TObj("BinaryMappingVariables")}}],
+         "force_functional_mapping": [{"lean": "force_functional_mapping_unary", "params": {"f": TObj("UnaryMappingVariables")}}],
+         "force_surjective_mapping": [{"lean": "force_surjective_mapping_unary", "params": {"f": TObj("UnaryMappingVariables")}}],
+         "force_injective_mapping": [{"lean": "force_injective_mapping_unary", "params": {"f": TObj("UnaryMappingVariables")}},
+                                     {"lean": "force_injective_mapping_binary", "params": {"f": TObj("BinaryMappingVariables")}}],
+     }},
+    {"file": "cnfgen/families/pigeonhole.py", "function": "PigeonholePrinciple", "property": "C01",
+     "params": {"pigeons": INT, "holes": INT, "functional": BOOL, "onto": BOOL, "formula_class": TEffectClass("Formula")}},
+    {"file": "cnfgen/families/pigeonhole.py", "function": "BinaryPigeonholePrinciple", "property": "C01",
+     "params": {"pigeons": INT, "holes": INT, "formula_class": TEffectClass("Formula")}},
+    {"file": "cnfgen/families/pigeonhole.py", "function": "RelativizedPigeonholePrinciple", "property": "C01",
+     "params": {"pigeons": INT, "resting_places": INT, "holes": INT, "formula_class": TEffectClass("Formula")}},
+    {"file": "cnfgen/families/pigeonhole.py", "function": "GraphPigeonholePrinciple", "property": "C01",
+     "params": {"G": TAbs("AbsBipGraph"), "functional": BOOL, "onto": BOOL, "formula_class": TEffectClass("Formula")}},
+    {"file": "cnfgen/families/pebbling.py", "function": "PebblingFormula", "property": "C03",
+     "params": {"digraph": TAbs("AbsDiGraph"), "formula_class": TEffectClass("Formula")}},
+    {"file": "cnfgen/families/ramsey.py", "function": "VanDerWaerden", "property": "C03",
+     "params": {"N": INT, "k1": INT, "k2": INT, "ks": TList(INT), "formula_class": TEffectClass("Formula")}, "vararg": "ks"},
+    {"file": "cnfgen/families/ordering.py", "function": "GraphOrderingPrinciple", "property": "C03",
+     "erased_locals": ["description"],
+     "params": {"graph": TAbs("AbsGraph"), "total": BOOL, "smart": BOOL, "plant": BOOL, "knuth": INT,
+                "formula_class": TEffectClass("Formula")}},
+    {"file": "cnfgen/families/ordering.py", "function": "OrderingPrinciple", "property": "C03",
+     "erased_locals": ["description"],
+     "params": {"size": INT, "total": BOOL, "smart": BOOL, "plant": BOOL, "knuth": INT,
+                "formula_class": TEffectClass("Formula")}},
+    {"file": "cnfgen/families/ramsey.py", "function": "RamseyNumber", "property": "C03",
+     "params": {"s": INT, "k": INT, "N": INT, "formula_class": TEffectClass("Formula")}},
+    {"file": "cnfgen/families/counting.py", "function": "CountingPrinciple", "property": "C01",
+     "params": {"M": INT, "p": INT, "formula_class": TEffectClass("Formula")}},
+    {"file": "cnfgen/families/ramsey.py", "function": "PythagoreanTriples", "property": "C03",
+     "params": {"N": INT, "formula_class": TEffectClass("Formula")}},
 ]
